@@ -5,7 +5,8 @@ Yield points — the only places where control can pass from one caller to anoth
     there, a task cannot be suspended before it), and
   * acquiring the instrumented lock assigned to `conn.channel.channel_lock`
     (with channel_lock off the harness pauses once before each operation instead).
-A schedule is a list of caller ids.  At every entry the controller releases exactly that caller, which runs
+A schedule is a list of entries: an id c (0..9) = run caller c; 10+c = CANCEL caller c if it is parked waiting for the lock
+(asyncio only: task.cancel(), what asyncio.wait_for does when a timeout expires; not enabled otherwise).  At every run entry the controller releases exactly that caller, which runs
 until it parks at its next yield point or finishes its program; a caller that is finished, or parked at the
 lock while the lock is held, is *not enabled* and the entry is skipped.  Exactly one caller runs at any
 time, so a run is a function of (programs, schedule, fault): no wall clock, no OS scheduling.
@@ -36,6 +37,7 @@ class RunResult:
         self.results: List[List[tuple]] = [[] for _ in range(n)]   # per caller, per op: ("ok", value) | ("exc", type, msg) | ("stall",)
         self.steps: List[Tuple[int, str]] = []                     # per schedule entry: (caller, "acquire"|"W"|"R") or (caller, "-done"|"-blocked") when skipped
         self.lock_events: List[Tuple[str, int, int]] = []          # ("acq"|"rel", caller, op index)
+        self.cancelled = set()                                     # (caller, op index) abandoned by a cancel-while-waiting event
         self.deadlock = False
         self.all_done = False
         self.lock_free_at_end = True
@@ -234,6 +236,8 @@ def run_threads(conn, transport: SchedTransport, programs: List[List[Callable[[A
         for c in range(n):
             threads.append(ctrl.launch(c, caller_main))
         for c in schedule:
+            if c >= 10:
+                raise ValueError("cancel events exist for asyncio tasks only (a thread cannot be cancelled)")
             ctrl.step(c)
         res.all_done = all(s == "done" for s in ctrl.state)
         res.deadlock = (not res.all_done) and not any(ctrl.enabled(c) for c in range(n))
@@ -261,6 +265,8 @@ class AsyncController:
         self.nact = [0] * n
         self.lock: Optional["AsyncSchedLock"] = None
         self.res = RunResult(n)
+        self.cancel_req = [False] * n
+        self.tasks: List[Any] = [None] * n
 
     async def pause(self, kind: str) -> int:
         c = self.running
@@ -297,6 +303,7 @@ class AsyncController:
         self.state[c] = "running"
         self.parked.clear()
         t = asyncio.ensure_future(target(c))
+        self.tasks[c] = t
         await self._wait_parked()
         return t
 
@@ -319,6 +326,20 @@ class AsyncController:
         self.go[c].set()
         await self._wait_parked()
         self.res.steps.append((c, kind))
+        return True
+
+    async def cancel(self, c: int) -> bool:
+        """cancel task c while it is parked at the lock (waiting or about to take it); it then runs on to its next yield point"""
+        if self.state[c] == "done" or self.state[c][1] != "acquire" or self.lock is None:
+            self.res.steps.append((c, "-nocancel"))
+            return False
+        self.cancel_req[c] = True
+        self.running = c
+        self.state[c] = "running"
+        self.parked.clear()
+        self.tasks[c].cancel()
+        await self._wait_parked()
+        self.res.steps.append((c, "cancel"))
         return True
 
     def teardown(self) -> None:
@@ -411,12 +432,19 @@ async def run_tasks(conn, transport: AsyncSchedTransport, programs, schedule: Li
         try:
             for k, op in enumerate(programs[c]):
                 ctrl.opidx[c] = k
-                if not lock_on:
-                    await ctrl.pause("acquire")
                 try:
+                    if not lock_on:
+                        await ctrl.pause("acquire")
                     res.results[c].append(("ok", await op(conn)))
                 except SchedAbort:
                     raise
+                except asyncio.CancelledError:
+                    if not ctrl.cancel_req[c]:
+                        raise
+                    ctrl.cancel_req[c] = False
+                    asyncio.current_task().uncancel()
+                    res.results[c].append(("cancelled",))
+                    res.cancelled.add((c, k))
                 except SimStall:
                     res.results[c].append(("stall",))
                     break
@@ -434,8 +462,11 @@ async def run_tasks(conn, transport: AsyncSchedTransport, programs, schedule: Li
     try:
         for c in range(n):
             tasks.append(await ctrl.launch(c, caller_main))
-        for c in schedule:
-            await ctrl.step(c)
+        for e in schedule:
+            if e >= 10:
+                await ctrl.cancel(e - 10)
+            else:
+                await ctrl.step(e)
         res.all_done = all(s == "done" for s in ctrl.state)
         res.deadlock = (not res.all_done) and not any(ctrl.enabled(c) for c in range(n))
         res.lock_free_at_end = (ctrl.lock is None) or (not ctrl.lock.locked())
@@ -493,3 +524,13 @@ def random_schedule(rng, n: int, length: int, stick: float = 0.5) -> List[int]:
             c = rng.randrange(n)
         s.append(c)
     return s
+
+
+def with_cancels(rng, sched: List[int], n: int, p: float = 0.15) -> List[int]:
+    """sprinkle cancel-while-waiting events (10 + caller) into a schedule"""
+    out = []
+    for c in sched:
+        if rng.random() < p:
+            out.append(10 + rng.randrange(n))
+        out.append(c)
+    return out
